@@ -14,7 +14,7 @@ func init() {
 }
 
 func checkC08(w *World, r *Report) {
-	r.Decides = "C08 is decided in its structural part only: (a) format dispatch is a bijection: the header a recoverer writes selects that same recoverer on the receiving side, the type byte is written and read at the same offset, SaveSnapshot writes the header of the recoverer that saves and RecoverFromSnapshot dispatches on the header it read with the same byte order; (b) save reads the view prepared for it (prepare pins a snapshot / checkpoint, the savers do not touch the live DB, every pair and every file is written; flush precedes checkpoint); (c) install order and interruption (the obligations of C04.e) and the publish protocol of the current-directory file (C04.c: write, sync, rename, directory sync); (d) no closure that captures a Pebble handle flows into a value returned by the state machine's Lookup."
+	r.Decides = "C08 is decided in its structural part only: (a) format dispatch is a bijection: the header a recoverer writes selects that same recoverer on the receiving side, the type byte is written and read at the same offset, SaveSnapshot writes the header of the recoverer that saves and RecoverFromSnapshot dispatches on the header it read with the same byte order; (b) save reads the view prepared for it (prepare pins a snapshot / checkpoint, the savers do not touch the live DB, every pair and every file is written; flush precedes checkpoint); (c) install order and interruption (the obligations of C04.e) and the publish protocol of the current-directory file (C04.c: write, sync, rename, directory sync); (d) no closure that captures a Pebble handle flows into a value returned by the state machine's Lookup; (e) the recoverers take bytes off the snapshot stream only through readers that deliver exactly what was asked for (io.ReadFull, io.Copy of a limited reader, binary.Read, the tar reader) - never through one bare Read, which may return less."
 	r.NotDecided = []string{"byte-faithfulness of the SST / tar transfer", "outcomes of concurrent readers other than the escape of a handle", "crash interruption (see C04's caveat)"}
 	r.Assume = []string{"dragonboat excludes Lookup and RecoverFromSnapshot from each other only for the duration of the Lookup call itself"}
 	a := w.FsmAnchors()
@@ -28,6 +28,7 @@ func checkC08(w *World, r *Report) {
 	c04InstallOrder(w, r, a, "C08.c", "c-install-order")
 	c04Publish(w, r, "C08.c2", "c2-publish-protocol")
 	c08Escape(w, r, a)
+	c08StreamReads(w, r, a)
 }
 
 func c08Dispatch(w *World, r *Report, a *FsmA, id, slug string) {
@@ -272,4 +273,48 @@ func c08Escape(w *World, r *Report, a *FsmA) {
 	}
 	r.Info["C08.d_handle_capturing_closures_on_lookup_path"] = n
 	ob.NeedFloor(1)
+}
+
+// c08StreamReads: C08.e — no bare Read on the snapshot stream.
+func c08StreamReads(w *World, r *Report, a *FsmA) {
+	ob := r.Ob("C08.e", "e-stream-read-fully", "in RecoverFromSnapshot and the recoverers no Read method is invoked directly on the snapshot stream (an io.Reader parameter or a reader derived from it): bytes are taken off it through io.ReadFull / io.ReadAtLeast / io.Copy* / io.CopyN / binary.Read / a tar reader, which loop until the requested amount was delivered", "io.Reader.Read may return fewer bytes than asked for (a decompressing or network reader does): a single Read desynchronises the stream - the rest of the file is read as the next length prefix")
+	sp := w.SSAPkg(fsmRel)
+	if sp == nil {
+		ob.Undecided("anchor", "package not loaded")
+		return
+	}
+	it, ok := sp.Pkg.Scope().Lookup("snapshotRecoverer").Type().Underlying().(*types.Interface)
+	if !ok {
+		ob.Undecided("anchor", "recoverer interface not found")
+		return
+	}
+	var fns []*ssa.Function
+	for _, t := range w.Implementers(it) {
+		if f := w.MethodOf(t, "recover"); f != nil {
+			fns = append(fns, f)
+		}
+	}
+	if f := w.MethodOf(types.NewPointer(a.FSM), "RecoverFromSnapshot"); f != nil {
+		fns = append(fns, f)
+	}
+	isReader := func(t types.Type) bool {
+		n, ok := t.(*types.Named)
+		return ok && n.Obj().Pkg() != nil && n.Obj().Pkg().Path() == "io" && n.Obj().Name() == "Reader"
+	}
+	for _, top := range fns {
+		ob.Site(top.Pos(), "recover path "+FnName(top))
+		for _, f := range withClosures(top) {
+			eachInstr(f, func(in ssa.Instruction) {
+				c := callOf(in)
+				if c == nil || !c.IsInvoke() || c.Method.Name() != "Read" {
+					return
+				}
+				if !isReader(c.Value.Type()) {
+					return
+				}
+				ob.Violate("bare-read@"+FnName(f), in.Pos(), "the recover path calls Read on the snapshot stream `"+Expr(c.Value)+"` once and goes on as if the buffer had been filled: a reader that delivers less (dragonboat hands in a decompressing reader) desynchronises the stream")
+			})
+		}
+	}
+	ob.NeedFloor(3)
 }
